@@ -135,8 +135,9 @@ class FakeSnowflakeCursor:
             if os.environ.get("FAKESNOW_DEBUG") == "snowflake":
                 print(f"{command};{params=}" if params else f"{command};", file=sys.stderr)
 
-            command = self._inline_variables(command)
+            # substitute params before variables, so that a % in a variable's value isn't taken for a placeholder
             command, params = self._rewrite_with_params(command, params)
+            command = self._inline_variables(command)
             if self._conn.nop_regexes and any(re.match(p, command, re.IGNORECASE) for p in self._conn.nop_regexes):
                 transformed = transforms.SUCCESS_NOP
                 self._execute(transformed, params)
